@@ -435,6 +435,42 @@ def _scripted_snap(args):
     return {"n": n, "vb": vb}
 
 
+def _machine_keyi(args):
+    """KEYI gating through the whole machine: with keyboard interrupts disabled no history of presses, releases, injected
+    events and timer ticks may ever raise the KEYI status bit; with them enabled a debounced press does raise it."""
+    from .. import machine as M
+    from . import c12
+    timers, = args
+    vb = VB()
+    n = 0
+    h = rb.harness()
+    scripts = [
+        [("press", "KEY_Q")] + [("step",)] * 14,
+        [("press", "KEY_Q")] + [("step",)] * 6 + [("release", "KEY_Q")] + [("step",)] * 14,
+        [("inject", "KEY_Q", 0)] + [("step",)] * 8,
+        [("step",)] * 3 + [("press", "KEY_Q")] + [("step",)] * 5 + [("press", "KEY_E")] + [("step",)] * 10,
+    ]
+    for timer in timers:
+        for imr in (0x00, 0x85, 0x8F):
+            for prog in ("nop", "halt", "wait"):
+                for enabled in (False, True):
+                    cfg = M.default_cfg(bytes.fromhex(c12.PROGRAMS[prog]), bytes.fromhex(c12.HANDLERS["reti"]), imr=imr, timer=timer,
+                                        kb_irq=enabled, kb_press=1, kol=0xFF)
+                    for si, sc in enumerate(scripts):
+                        for impl in ("python", "rust"):
+                            obs = M.run_py(cfg, sc) if impl == "python" else M.run_rs(h, cfg, sc)
+                            n += len(sc)
+                            raised = [k for k, o in enumerate(obs) if o["imem"][0xFC] & 0x04]
+                            wit = {"impl": "machine-keyi", "machine": impl, "cfg": [prog, imr, list(timer), enabled], "script": si}
+                            if raised and not enabled:
+                                vb.add(f"C14/{impl}/machine-keyi/raised-while-disabled", f"{impl} {prog} imr={imr:02x} t={timer}: keyboard interrupts disabled, "
+                                       f"yet KEYI was set at event {raised[0]} of {sc[:raised[0] + 1]}", wit)
+                            if enabled and not raised and si in (0, 2) and prog == "nop" and timer[0] and timer[1] in (1, 2):
+                                vb.add(f"C14/{impl}/machine-keyi/never-raised-while-enabled", f"{impl} {prog} imr={imr:02x} t={timer}: keyboard interrupts "
+                                       f"enabled, key event pending for {len(sc)} events, KEYI never set", wit)
+    return {"n": n, "vb": vb}
+
+
 def _py_keyi(cfg, vb: VB) -> int:
     """KEYI gating through the real machine glue (PCE500Emulator._scan_keyboard_per_instruction)."""
     from pce500.emulator import PCE500Emulator
@@ -466,8 +502,10 @@ def run(ctx) -> None:
             [("python-handler", c, depth_py - 1, []) for c in py_cfgs[:2] + py_cfgs[3:5]])
     res = pmap(_bfs, jobs)
     sres = pmap(_scripted, [("python", c) for c in py_cfgs + [(True, 6, 6, 24, 6)]] + [("python-handler", c) for c in py_cfgs + [(True, 6, 6, 24, 6)]] + [("rust", c) for c in rs_cfgs + [(True, 6, 6, 24, 6)]])
-    for r in res + sres:
+    mres = pmap(_machine_keyi, [([t],) for t in ((True, 1, 0), (True, 2, 0), (True, 3, 0), (True, 0, 2), (False, 0, 0), (True, 2, 3))])
+    for r in res + sres + mres:
         ctx.merge_bucket(r["vb"])
+    ctx.coverage["machine_keyi_events"] = sum(r["n"] for r in mres)
     ctx.level = "model_checking"
     ctx.coverage.update({
         "states": sum(r["states"] for r in res),
@@ -489,8 +527,15 @@ def run(ctx) -> None:
 
 def replay(ctx, w) -> Optional[str]:
     rb.build()
-    cfg = tuple(w["cfg"])
+    cfg = tuple(w["cfg"]) if w.get("impl") != "machine-keyi" else ()
     vb = VB()
+    if w["impl"] == "machine-keyi":
+        prog, imr, timer, enabled = w["cfg"]
+        r = _machine_keyi(([tuple(timer)],))
+        for sig, (cnt, wl) in r["vb"].d.items():
+            if w["machine"] in sig:
+                return wl[0][0]
+        return None
     if w["impl"] == "python-keyi":
         _py_keyi(cfg, vb)
     else:
